@@ -23,7 +23,8 @@ from props import engine_script as es
 
 LEVEL = "proof"
 FILES = ["Engine/Engine.v", "Engine/Script.v", "Engine/EngineProofs.v", "Engine/ScriptProofs.v",
-         "Engine/Control.v", "Engine/ControlProofs.v", "Engine/ControlScript.v", "C04/Lemmas.v", "C04/Props.v"]
+         "Engine/Control.v", "Engine/ControlProofs.v", "Engine/ControlScript.v", "C04/Lemmas.v",
+         "Base/PyLib.v", "Gen/BreakpointGen.v", "C04/GenTie.v", "C04/Props.v"]
 MODES = ["plain", "recorder", "tracing", "control-idle"]
 
 
@@ -404,6 +405,9 @@ FAM_SESSION = Family("session", es.SESSION_IMPORTS, "ok_session", es.SESSION_CAS
 
 TRUSTED = [
     "Coq 8.16.1 kernel, vm_compute for case evaluation; no native_compute; no axioms",
+    "translator harness/translate/py2coq.py + declared types (py2coq_targets.py BreakpointGen): should_break of TimeBreakpoint / "
+    "EventCountBreakpoint / EventTypeBreakpoint is regenerated from core/control/breakpoints.py on every run and proved equal to the model's "
+    "should_break on the context after a delivery (C04/GenTie.v); event types are integers; MetricBreakpoint (getattr) stays hand-modelled",
     "trace recorder, event tracing and the visual/code debuggers are not modelled: the correspondence shows they leave the run equal to the same model run",
     "Condition breakpoints (arbitrary Python predicates) are not modelled; Time/EventCount/EventType/Metric (on the scripted entities' handled-events counter) are",
     "harness/props/engine_script.py (script generator, control-session driver, observers, encoder)",
@@ -411,7 +415,12 @@ TRUSTED = [
 
 
 def run(ctx):
+    from props import pygen
+    ok, info = pygen.regenerate("BreakpointGen")    # Time/EventCount/EventType breakpoint predicates translated from $HS_REPO
+    ctx.coverage["regenerated"] = info
     ctx.prove(FILES, allowed_axioms=(), trusted_base=TRUSTED)
+    if not ok and ctx.pending_obligation_violation:
+        ctx.pending_obligation_violation["translator"] = info.get("error")
     stats = [run_family(ctx, FAM_MODES, ctx.n(300, 6000)), run_family(ctx, FAM_SESSION, ctx.n(300, 6000))]
     merge_stats(ctx, stats, "random scripts x observation mode, and random control sessions (<=13 commands); non-trivial = >=3 pops / >=2 pauses; distinct by JSON")
     ctx.assumptions.append("reset()+run() replay is checked by the implementation-side oracle only (stateless scripts); it is not modelled")
